@@ -137,7 +137,12 @@ def run(chk, tier):
             expect(chk, "R-WIRE", RAD + "::" + acc, t, F(field), fn.where(), "returns its own field")
     chk.floor("Radial accessors", n, 14)
     # the chrono view of the collection time is the same instant: the epoch-millisecond field, converted by chrono itself
-    t, fn = eval_or_blind(chk, sym.Evaluator(prog), "R-WIRE", RAD + "::collection_time")
+    # (the accessor exists only with nexrad-model's `chrono` feature: it must be found in the all-features
+    # configuration; in the default-feature configuration of the thorough tier it is compiled out)
+    if prog.fn(RAD + "::collection_time") is None and common.CFG not in (None, "all"):
+        t, fn = None, None
+    else:
+        t, fn = eval_or_blind(chk, sym.Evaluator(prog), "R-WIRE", RAD + "::collection_time")
     if t is not None:
         want = ("call", "chrono::datetime::DateTime::<chrono::offset::utc::Utc>::from_timestamp_millis", (F("collection_timestamp"),))
         okk = t == want or sym.sem_eq(t, want)
